@@ -167,14 +167,22 @@ public:
 	ndim(0),order(NULL),knots(NULL),nknots(NULL),extents(NULL),periods(NULL),
 	coefficients(NULL),naxes(NULL),strides(NULL),naux(0),aux(NULL),allocator(alloc)
 	{
-    assert(!tables.empty());
-    assert(tables.size()==coordinates.size());
-    int inputDim=tables.front()->get_ndim();
+    if(tables.size()<2)
+      throw std::runtime_error("At least two tables are needed for stacking");
+    if(tables.size()!=coordinates.size())
+      throw std::runtime_error("Number of stacking coordinates does not match the number of tables");
+    if(stackOrder<0)
+      throw std::runtime_error("Invalid order for the stacking dimension");
+    unsigned int inputDim=tables.front()->get_ndim();
+    if(inputDim==0)
+      throw std::runtime_error("Empty tables cannot be stacked");
     for(auto table : tables){
-      assert(table->get_ndim() == inputDim);
-      assert(table->get_ncoeffs() && tables.front()->get_ncoeffs());
+      if(table->get_ndim() != inputDim)
+        throw std::runtime_error("Tables to be stacked must have the same number of dimensions");
       for(unsigned int i=0; i<inputDim; i++){
-        assert(table->get_order(i) && tables.front()->get_order(i));
+        if(table->get_order(i) != tables.front()->get_order(i)
+           || table->get_nknots(i) != tables.front()->get_nknots(i))
+          throw std::runtime_error("Tables to be stacked must have the same orders and knots");
       }
     }
 
